@@ -291,8 +291,7 @@ class _Gen(object):
         hi = min(self.hi, e.maxprec)
         if e.key.endswith('_vhi'):
             # above 1000 bits the gamma Taylor coefficients are cached at 1.2x the precision: pairs inside that window
-            base = r.choice([1100, 2000, 2600, 3000, 3000, 3080])
-            return min(e.maxprec, int(base * r.choice([1.0, 1.0, 1.15, 1.19, 1.2, 1.2, 1.205, 1.21])))
+            return r.choice([1100, 2000, 2600, 2900, 3000, 3000, 3040, 3080])
         if e.key.endswith('_hi') or ('elem' in self.groups and r.random() < 0.3 and e.maxprec >= 3000):
             return min(hi, r.choice(ELEM_PRECS) + r.randint(-2, 2))
         return pick_prec(r, hi)
@@ -384,7 +383,7 @@ class _Gen(object):
             if not ents:
                 continue
             e = r.choice(ents)
-            if actor not in ('fp',) and (r.random() < 0.5 or self.cur[actor] > e.maxprec):
+            if actor not in ('fp',) and (r.random() < 0.5 or self.cur[actor] > e.maxprec or e.key.endswith('_vhi')):
                 steps.append(self.setprec(actor, self.pick_hist_prec(e)))
             same = [s for s in self.hist_calls if s.get('key') == e.key and s.get('actor') == actor]
             st = self.call(actor, e, judge=(r.random() < self.judge_rate and e.key not in EXCLUDE),
@@ -392,6 +391,12 @@ class _Gen(object):
             self.maybe_fault(st, e)
             steps.append(st)
             self.hist_calls.append(st)
+            if e.key.endswith('_vhi') and 'fault' not in st and r.random() < 0.7:
+                # the same arguments again at the upper end of the 1.2x reuse window of the coefficient cache
+                p2 = min(e.maxprec, int(self.cur[actor] * r.choice([1.19, 1.2, 1.2, 1.205])))
+                steps.append(self.setprec(actor, p2))
+                st2 = self.call(actor, e, judge=True, reuse=st, rel='above')
+                steps.append(st2)
             if 'fault' in st:
                 steps.append({'kind': 'reassert', 'id': self.new_id()})
                 self.probes(steps, r.randint(2, 5), after_abort=True)
